@@ -1,9 +1,105 @@
-/- stub: transcription of rrul_fill_Sly pending -/
-import Echse.Model.RrBase
+/-
+  Model of `rrul_fill_Sly` (src/evrrul.c:2358-2610, FREQ=SECONDLY).  Hand transcription, loop by loop; shares the mask
+  set-up (`mkSubCtx`; the `make_enum` part of it is not used here), the day tests (`SubCtx.dayOut`), `doyHit`,
+  `interPast`, `posPickAnyP` with the hourly filler (Echse.Model.RrHly) and the month carry `subCarry` with the minutely
+  one (Echse.Model.RrMnly).  C `unsigned int` arithmetic that can wrap is written with explicit `% u32`.
+  Tied to the C code by tools/rrfillprobe.py.  Results are accumulated in reverse; `cnt` is the C variable `res`.
+-/
+import Echse.Model.RrMnly
 namespace Echse.Rrule
 open Echse.Instant
 
-/-- `none` = not modelled yet -/
-def fillSly (_r : Rule) (_proto : Inst) (_nti : Nat) : Option (List Inst) := none
+/-- 2496-2507: `for (k = 0, tmp = (H * 60U + M) * 60U + S; !(H_mask & (1U << tmp / 3600U)) ||
+!(M_mask & (1ULL << tmp / 60U % 60U)) || !(S_mask & (1ULL << tmp % 60U)); tmp = (tmp + rr->inter % 86400U) % 86400U)
+if (++k >= 86400U) goto fin;`
+`some true` = an allowed time of day is reachable, `some false` = `goto fin`.  Fuel: `k` grows by one per round and the
+loop is left at `k = 86400`, so 86400 rounds suffice. -/
+def slyReach (c : SubCtx) : Nat → Nat → Nat → Option Bool
+  | 0, _, _ => none
+  | fuel+1, k, tmp =>
+    if (c.HMask &&& shl1 (tmp / 3600)) ≠ 0 ∧ (c.MMask &&& shl1q (tmp / 60 % 60)) ≠ 0 ∧
+       (c.SMask &&& shl1q (tmp % 60)) ≠ 0 then some true
+    else if k + 1 ≥ 86400 then some false
+    else slyReach c fuel (k + 1) ((tmp + c.inter % 86400) % 86400)
+
+/-- 2510-2607: the loop over the candidate seconds, `for (w = …, maxd = …, inc = rr->inter; res < nti;
+({ if ((S += inc) >= 60U) { … } inc = rr->inter; }))`.  `inc` is `rr->inter` at the head of every round, so it is not
+part of the state; the body says which `inc` its `continue` leaves behind.  There is no `x < proto` test and no ENUM
+loop here: a candidate that passes the tests is written as it is.  `none` out of fuel (see `slyFuel`). -/
+def slyLoop (c : SubCtx) :
+    Nat → Nat → Nat → Nat → Nat → Nat → Nat → Nat → Nat → Nat → List Inst → Option (List Inst)
+  | 0, _, _, _, _, _, _, _, _, _, _ => none
+  | fuel+1, y, m, d, H, M, S, w, maxd, cnt, acc =>
+    if ¬ cnt < c.nti then some acc else
+    -- 2537-2555: the instant this candidate would produce; the year stop; UNTIL
+    let x := mkInst y m d H M S c.proto.ms
+    if y > subMaxYear then some acc                                          -- goto fin
+    else if ltP c.r.untl x then some acc                                     -- goto fin
+    else
+    -- 2559-2606: the body proper, `(hit, inc)`; `hit` = bang: `tgt[res++] = x`
+    -- inter_past(86400U - ((H * 60U + M) * 60U + S), rr->inter)
+    let pastD := interPast ((86400 + u32 - ((H * 60 + M) * 60 + S) % u32) % u32) c.inter
+    let (hit, inc) : Bool × Nat :=
+      if c.dayOut w m d maxd then (false, pastD)                             -- weekday, month or day is filtered
+      else if (c.HMask &&& shl1 H) = 0 then                                  -- hour is filtered
+        (false, interPast ((3600 + u32 - (M * 60 + S) % u32) % u32) c.inter)
+      else if (c.MMask &&& shl1q M) = 0 then                                 -- minute is filtered
+        (false, interPast ((60 + u32 - S) % u32) c.inter)
+      else if (c.SMask &&& shl1q S) = 0 then (false, c.inter)                -- second is filtered
+      else if !c.r.doy.isEmpty && !doyHit c.r.doy (ymdGetYd y m d) (maxyOf y) then (false, pastD)
+      else (true, c.inter)
+    let cnt := if hit then cnt + 1 else cnt
+    let acc := if hit then x :: acc else acc
+    -- 2513-2536: the loop's increment expression
+    let S := (S + inc) % u32
+    if S ≥ 60 then
+      let M := (M + S / 60) % u32
+      let S := S % 60
+      if M ≥ 60 then
+        let H := (H + M / 60) % u32
+        let M := M % 60
+        if H ≥ 24 then
+          let q := H / 24
+          let w := wrapWd ((w + q) % u32)
+          match subCarry ((d + q) % u32 + 1) y m ((d + q) % u32) maxd with
+          | none => none
+          | some (y, m, d, maxd) => slyLoop c fuel y m d (H % 24) M S w maxd cnt acc
+        else slyLoop c fuel y m d H M S w maxd cnt acc
+      else slyLoop c fuel y m d H M S w maxd cnt acc
+    else slyLoop c fuel y m d H M S w maxd cnt acc
+
+/-- fuel of `slyLoop` entered at year `y`.  `inc` is `rr->inter` or `inter_past(rem, rr->inter)`, a multiple of
+`rr->inter ≥ 1` below `rem + rr->inter` (`rem ≤ 86400`, no wrap).  As long as `S + inc` does not wrap, a round moves the
+candidate `y-m-d H:M:S` forward by `inc ≥ 1` seconds (the carries keep the second count), and a round entered with
+`y > 2099` leaves the loop.  `S + inc` wraps only for `inc ≥ 2^32 - 63`; then `S` shrinks by at least 1, the rest stays,
+and after at most 63 such rounds in a row (`S` is a 6-bit field) the sum no longer wraps and the candidate leaps forward
+by more than 2^32 - 64 seconds (136 years): a run of at most 64 rounds gains more than 64 seconds.  So there are at
+most `(2100 - y) * 366 * 86400 + 65` rounds. -/
+def slyFuel (y : Nat) : Nat := (2100 - y) * 31622400 + 300
+
+/-- `rrul_fill_Sly(tgt, nti, rr)` with `*tgt = proto` -/
+def fillSly (r : Rule) (proto : Inst) (nti : Nat) : Option (List Inst) :=
+  let y := proto.y
+  let m := proto.m
+  let d := proto.d
+  -- 2377-2381
+  match capNti r nti with
+  | none => some []
+  | some nti =>
+  -- 2382-2385
+  if r.scale ≠ 0 then some [] else
+  -- 2387-2392
+  let (H, M, S) := if proto.H = allDay then (0, 0, 0) else (proto.H, proto.M, proto.S)
+  let c := mkSubCtx r proto nti
+  -- 2483-2489
+  if y < 1600 ∨ m = 0 ∨ m > 12 ∨ d = 0 ∨ d > 31 then some [] else
+  if r.inter % u32 = 0 then some [] else
+  -- 2491-2494: a second's set is just one instant, the first and last
+  if !posPickAnyP r.pos 1 then some [] else
+  match slyReach c 86400 0 ((H * 60 + M) * 60 + S) with
+  | none => none
+  | some false => some []                                                    -- incongruent, nothing will ever match
+  | some true =>
+    (slyLoop c (slyFuel y) y m d H M S (ymdGetWday y m d) (getNdom y m) 0 []).map List.reverse
 
 end Echse.Rrule
